@@ -182,6 +182,10 @@ int cif_loop_set_category(cif_loop_tp *loop, const UChar *category) {
     UChar *category_temp;
 
     if (category == NULL) {
+        /* the scalar loop's category may not be changed, not even to none */
+        if ((loop->category != NULL) && (*(loop->category) == 0)) {
+            return CIF_RESERVED_LOOP;
+        }
         category_temp = NULL;
     } else if (*category == 0) {
         return CIF_RESERVED_LOOP;
